@@ -141,6 +141,50 @@ func (e *Engine) VerifyFunc(key string, small bool) *FnCtx {
 				fc.obls = append(fc.obls, &Obl{Func: key, Kind: "ensures", Label: c.Label, Site: fmt.Sprintf("%s.%d", site, k), NFacts: len(fc.facts), Path: r.reach, Goal: g.T, Using: c.Using, Text: c.Text, Window: c.Window, Since: c.Since, blk: r.blk, fr: fr})
 			}
 		}
+		// closures used as iterator bodies (foreachCall): each_* clauses must be one-state and stable under another call of
+		// the closure with any other arguments; the requires must hold again whenever the closure returns true.
+		if fn.Parent() != nil {
+			stable := func(kind string, c *Clause, underTrue bool) {
+				entryEnv := fr.baseEnv(entry)
+				entryEnv.old = nil
+				entryEnv.lookup = env.lookup
+				exitEnv := fr.baseEnv(r.state)
+				exitEnv.old = nil
+				exitEnv.lookup = env.lookup
+				for i, p := range fn.Params {
+					tv := TV{fc.declare(fmt.Sprintf("other_%s_%d", mangle(p.Name()), i), fc.P.SortOf(p.Type())), fc.P.SortOf(p.Type()), p.Type()}
+					entryEnv.names[p.Name()] = tv
+					exitEnv.names[p.Name()] = tv
+				}
+				if strings.Contains(c.Text, "old(") {
+					fc.errf("%s clause [%s] must be a one-state predicate (no old())", kind, c.Label)
+					return
+				}
+				post := exitEnv.tr(c.E)
+				goal := post.T
+				if underTrue {
+					if len(r.results) == 1 {
+						goal = fmt.Sprintf("(=> %s %s)", r.results[0], post.T)
+					}
+				} else {
+					pre := entryEnv.tr(c.E)
+					goal = fmt.Sprintf("(=> %s %s)", pre.T, post.T)
+				}
+				fc.obls = append(fc.obls, &Obl{Func: key, Kind: kind, Label: c.Label, Site: site, NFacts: len(fc.facts), Path: r.reach, Goal: goal, Using: c.Using, Text: c.Text})
+			}
+			hasEach := false
+			for _, c := range ctr.Ensures {
+				if strings.HasPrefix(c.Label, "each_") {
+					hasEach = true
+					stable("each-stable", c, false)
+				}
+			}
+			if hasEach || ctr.IterBody {
+				for _, c := range ctr.Requires {
+					stable("requires-reestablished", c, true)
+				}
+			}
+		}
 		for _, c := range ctr.AsIs {
 			g := env.tr(c.E)
 			fc.obls = append(fc.obls, &Obl{Func: key, Kind: "asis", Label: c.Label, Site: site, NFacts: len(fc.facts), Path: r.reach, Goal: g.T, Using: c.Using, Text: c.Text})
